@@ -279,8 +279,9 @@ namespace sqf::parser::sqf
                     while (true)
                     {
                         if (is_match<'\''>(iter) && is_match<'\''>(iter + 1))
-                        {
+                        { // escaped quote: two characters of the line
                             ++iter;
+                            m_column++;
                         }
                         else if (is_match<'\''>(iter))
                         {
@@ -317,8 +318,9 @@ namespace sqf::parser::sqf
                     while (true)
                     {
                         if (is_match<'"'>(iter) && is_match<'"'>(iter + 1))
-                        {
+                        { // escaped quote: two characters of the line
                             ++iter;
+                            m_column++;
                         }
                         else if (is_match<'"'>(iter))
                         {
